@@ -15,7 +15,10 @@ try:
     for f in sorted(os.listdir(out + "/reports")):
         d = json.load(open(f"{out}/reports/{f}"))
         for o in d["new_findings"]:
-            found.append({"status": "known", "property": d["property_id"], "rule": o["rule"], "instance": o["instance"], "statement": "*",
+            inst = o["instance"]
+            if "/" in inst and not inst.startswith(("POOL/", "ENGINE/", "RUN/", "STORE/")):
+                inst = "*" + inst[inst.index("/"):]  # the defect, wherever a refactoring of this old tree has moved the code to
+            found.append({"status": "known", "property": d["property_id"], "rule": o["rule"], "instance": inst, "statement": "*",
                           "short": "(repaired by a later fix: commit) " + o["why"][:120]})
     short = subprocess.run(["git", "-C", "/repo", "rev-parse", "--short", commit], capture_output=True, text=True).stdout.strip()
     p = os.path.join(os.path.dirname(os.path.abspath(__file__)), "base_known", short + ".json")
